@@ -338,7 +338,9 @@ func (h *hist) amountNear(depth *big.Int) *big.Int {
 func (h *hist) leverage() sdk.Dec {
 	rng := h.rng
 	max := h.w.app.MarginKeeper.GetParams(h.w.ctx).LeverageMax
-	switch rng.Intn(6) {
+	switch rng.Intn(7) {
+	case 6: // barely leveraged: health in the hundreds
+		return sdk.MustNewDecFromStr([]string{"1.001", "1.005", "1.01", "1.0099"}[rng.Intn(4)])
 	case 0:
 		return sdk.OneDec()
 	case 1:
@@ -593,7 +595,7 @@ func (h *hist) opParams() {
 	case 15, 16: // the pool-open threshold: pools whose recorded health is at or below it are locked for opening
 		p.PoolOpenThreshold = h.decChoice("0.1", "0.5", "0.9", "0.93", "0.99", "1")
 	case 14:
-		p.SafetyFactor = h.decChoice("2", "10", "100", "1.5")
+		p.SafetyFactor = h.decChoice("2", "10", "100", "1.5", "1000")
 		p.ForceCloseFundPercentage = h.decChoice("0.1", "0.5", "0")
 	case 8: // the optional fund address fields left out of the message: stored empty, nothing validates them
 		p.IncrementalInterestPaymentFundAddress = ""
@@ -977,6 +979,22 @@ func (h *hist) directed(kind int) {
 		}
 		for !h.opBlock() {
 		}
+	case 14: // barely leveraged positions (leverage 1.001 .. 1.01: health 100 .. 1000) on both collateral sides while
+		// the administrator closes everything (safety factor 100): the hook must keep those above 100; then 1000
+		for i, lv := range []string{"1.005", "1.001", "1.01", "1.02"} {
+			h.doOpen(h.traders[i%3], "rowan", "cusdc", amt("cusdc", true), margintypes.Position_LONG, sdk.MustNewDecFromStr(lv))
+			h.doOpen(h.traders[(i+1)%3], "ceth", "rowan", amt("ceth", false), margintypes.Position_LONG, sdk.MustNewDecFromStr(lv))
+		}
+		h.adminCloseAll(true)
+		for !h.opBlock() {
+		}
+		p = k.GetParams(w.ctx)
+		p.SafetyFactor = sdk.NewDec(1000)
+		h.setParams(&p)
+		for !h.opBlock() {
+		}
+		for !h.opBlock() {
+		}
 	case 5: // every pool at once: positions on both sides of every pool, two epoch boundaries, everything closed
 		// again — a lookup of "the positions of pool X" that also returns those of a pool whose symbol
 		// merely starts with X (or of X + the start of an address) shows here as custody moved on the wrong pool
@@ -1005,10 +1023,10 @@ func (h *hist) directed(kind int) {
 // later position of its pool (store order = address, id) have been taken out with DestroyMTP — the
 // pool record is left as it is, so the earlier positions are processed exactly as in the full run —
 // and the position is then valued with UpdateMTPHealth in the pool record that run leaves behind.
-func (h *hist) forcedByHook() []struct{ health, tag string } {
+func (h *hist) forcedByHook() []struct{ health, tag, state string } {
 	w := h.w
 	k := w.app.MarginKeeper
-	var out []struct{ health, tag string }
+	var out []struct{ health, tag, state string }
 	before := k.GetAllMTPS(w.ctx)
 	if len(before) == 0 {
 		return nil
@@ -1028,6 +1046,7 @@ func (h *hist) forcedByHook() []struct{ health, tag string } {
 			continue // still stored after the hook
 		}
 		hs := "nohealth"
+		state := ""
 		br, _ := w.ctx.CacheContext()
 		r := protect(func() string {
 			for _, later := range before[i:] {
@@ -1042,6 +1061,8 @@ func (h *hist) forcedByHook() []struct{ health, tag string } {
 			if err != nil {
 				return "err"
 			}
+			// the raw state at its turn, for the Lean judge (independent of the keeper's own health function)
+			state = "P=" + poolS(&pool) + " M=" + mtpS(m)
 			hh, err := k.UpdateMTPHealth(br, *m, pool)
 			if err != nil {
 				return "err"
@@ -1051,7 +1072,7 @@ func (h *hist) forcedByHook() []struct{ health, tag string } {
 		if r != "err" && r != "panic" {
 			hs = r
 		}
-		out = append(out, struct{ health, tag string }{hs, "bb.forced" + h.shape()})
+		out = append(out, struct{ health, tag, state string }{hs, "bb.forced" + h.shape(), state})
 	}
 	return out
 }
@@ -1072,7 +1093,7 @@ func (h *hist) opBlock() bool {
 	}
 	boundary := h.height%epochLen == 0
 	var rates []string
-	var forcedList []struct{ health, tag string }
+	var forcedList []struct{ health, tag, state string }
 	if boundary {
 		// environment value: the rate InterestRateComputation gives each enabled pool (read-only, on the state before the hook)
 		for _, pool := range w.app.ClpKeeper.GetPools(w.ctx) {
@@ -1103,6 +1124,9 @@ func (h *hist) opBlock() bool {
 				h.out.Emit("chk c13.forced tag="+f.tag+".nohealth 1 0", "true", "chk.forced", false)
 			} else {
 				h.out.Emit(fmt.Sprintf("chk c13.forced tag=%s %s %s", f.tag, f.health, sf), "true", "chk.forced", false)
+			}
+			if f.state != "" {
+				h.out.Emit(fmt.Sprintf("chk c13.forcedstate tag=%s.state %s", f.tag, f.state), "true", "chk.forcedstate", false)
 			}
 		}
 		h.out.Hist["bb.forcedclosed"] += len(forcedList)
@@ -1140,7 +1164,7 @@ func init() {
 			}
 			h := &hist{w: w, out: out, rng: rng, fixedPools: nhist == 4, evenPools: nhist == 9 || nhist == 12}
 			h.setup()
-			if nhist < 14 {
+			if nhist < 15 {
 				h.directed(nhist)
 				nhist++
 				continue
